@@ -73,6 +73,8 @@ pub struct RealState {
     pub lang: Lang,
     pub store: Store,
     pub damlev: DamerauLevenshtein,
+    /// a second engine fed the same pairs with the first word marked unfinished (the distance must not depend on it)
+    pub damlev_unfinished: DamerauLevenshtein,
     pub jaccard: Jaccard<char>,
     pub live_ids: Vec<usize>,
 }
@@ -81,7 +83,7 @@ impl RealState {
     pub fn new(code: &str) -> RealState {
         let mut store = Store::new();
         store.lang = make_lang(code);
-        RealState { lang_code: code.to_string(), lang: make_lang(code), store, damlev: DamerauLevenshtein::new(), jaccard: Jaccard::new(), live_ids: vec![] }
+        RealState { lang_code: code.to_string(), lang: make_lang(code), store, damlev: DamerauLevenshtein::new(), damlev_unfinished: DamerauLevenshtein::new(), jaccard: Jaccard::new(), live_ids: vec![] }
     }
     pub fn cleanup(&mut self) {
         for id in self.live_ids.drain(..) { let _ = guarded(|| core::destroy_store(id)); }
